@@ -53,6 +53,25 @@ impl<F> FileGroup<F> {
 '''
 
 
+FAST_HEAD = '''
+    // statement slice of redundant_count (arm Overreplicated(rf), branch `filter.root_paths.is_empty()`)
+    fn redundant_fast_path(&self, filter: &FileGroupFilter, rf: usize) -> (r: usize)
+        requires filter.root_paths@.len() == 0,
+        ensures r as int == (if self.files@.len() as int >= (if rf >= 1 { rf as int } else { 1int })
+                                { self.files@.len() as int - (if rf >= 1 { rf as int } else { 1int }) } else { 0int }), // @ob C14.redundant_fast_path.files_minus_max_rf_1_floored
+    {
+        broadcast use max_usize;
+'''
+
+FAST_TAIL = '''
+                } else {
+                    proof { assert(false); } // @ob C14.redundant_fast_path.branch_taken_iff_no_roots
+                    0
+                }
+    }
+'''
+
+
 def build():
     ub = UnitBuild(NAME)
     src = Source("fclones/src/group.rs")
@@ -105,25 +124,15 @@ def build():
             Replication::Underreplicated(rf) => if rf as int >= spec_subgroup_count(self, filter) as int { rf as int - spec_subgroup_count(self, filter) as int } else { 0int }, // @ob C14.missing_count.rf_minus_count_floored
         }
    ''')
-    # fast path of redundant_count (no isolated roots): statement slice
-    fn = src.fn_in(impl, "pub fn redundant_count(&self, filter: &FileGroupFilter) -> usize {")
-    sl = src.stmts(fn, "let rf = max(rf, 1);", "self.file_count().saturating_sub(rf)")
+    # fast path of redundant_count (no isolated roots): statement slice (optional: left out if its anchors are lost)
+    def fast_path():
+        fn = src.fn_in(impl, "pub fn redundant_count(&self, filter: &FileGroupFilter) -> usize {")
+        sl = src.stmts(fn, "let rf = max(rf, 1);", "self.file_count().saturating_sub(rf)")
+        ub.spec(FAST_HEAD)
+        ub.piece(Piece(sl))
+        ub.spec(FAST_TAIL)
+    ub.optional("redundant_count fast path", fast_path, prefixes=["C14.redundant_fast_path."])
     ub.spec('''
-    // statement slice of redundant_count (arm Overreplicated(rf), branch `filter.root_paths.is_empty()`)
-    fn redundant_fast_path(&self, filter: &FileGroupFilter, rf: usize) -> (r: usize)
-        requires filter.root_paths@.len() == 0,
-        ensures r as int == (if self.files@.len() as int >= (if rf >= 1 { rf as int } else { 1int })
-                                { self.files@.len() as int - (if rf >= 1 { rf as int } else { 1int }) } else { 0int }), // @ob C14.redundant_fast_path.files_minus_max_rf_1_floored
-    {
-        broadcast use max_usize;
-''')
-    ub.piece(Piece(sl))
-    ub.spec('''
-                } else {
-                    proof { assert(false); } // @ob C14.redundant_fast_path.branch_taken_iff_no_roots
-                    0
-                }
-    }
 }
 
 // stand-in for group::GroupCtx: the one field the stage filters read
@@ -143,14 +152,18 @@ pub open spec fn filter_holds<F>(g: &FileGroup<F>, filter: &FileGroupFilter) -> 
     for fn_name, final in [("group_by_contents", True), ("group_transformed", True), ("group_by_prefix", False), ("group_by_suffix", False)]:
         fn = src.item("fn %s(" % fn_name)
         if final:
-            ub.spec("fn %s_post_filter<F>(g: &FileGroup<F>, ctx: &GroupCtx) -> (r: bool)\n"
+            head = ("fn %s_post_filter<F>(g: &FileGroup<F>, ctx: &GroupCtx) -> (r: bool)\n"
                     "    ensures r == filter_holds(g, &ctx.group_filter), // @ob C06.final_filter.%s_reports_iff_filter_holds\n{\n    " % (fn_name, fn_name))
         else:
-            ub.spec("fn %s_post_filter<F>(g: &FileGroup<F>, ctx: &GroupCtx) -> (r: bool)\n"
+            head = ("fn %s_post_filter<F>(g: &FileGroup<F>, ctx: &GroupCtx) -> (r: bool)\n"
                     "    ensures filter_holds(g, &ctx.group_filter) ==> r, // @ob C06.stage_filter.%s_never_drops_a_reportable_class\n"
                     "            ctx.group_filter.replication is Underreplicated ==> r, // @ob C06.stage_filter.%s_keeps_everything_for_under_replication_search\n{\n    " % (fn_name, fn_name, fn_name))
-        ub.piece(Piece(src.call_arg(fn, "rehash", 2)))
-        ub.spec("\n}\n\n")
+        def one(fn=fn, head=head):
+            region = src.call_arg(fn, "rehash", 2)
+            ub.spec(head)
+            ub.piece(Piece(region))
+            ub.spec("\n}\n\n")
+        ub.optional("post-filter of %s" % fn_name, one, prefixes=["C06.final_filter.", "C06.stage_filter."])
     ub.spec('''
 } // verus!
 fn main() {}
